@@ -299,6 +299,12 @@ func TestMC_C05(t *testing.T) {
 										outs = append(outs, txgOut{Type: c05Types[t2i], Amt: c05Bal})
 									}
 									emit(all, 1, &txgShape{Asset: as, Ins: ins, InAmt: five, Outs: outs, Sig: sig, ExtraLen: -1, Refs: txgRefAuto})
+									if t2i >= 0 && f != txgFormStorage {
+										// a ZERO amount on the first output of every type, the second carries the whole input
+										zero := txgAmt("0", big.NewInt(0))
+										outs0 := []txgOut{{Type: t1, Form: f, Amt: zero}, {Type: c05Types[t2i], Amt: c05Bal}}
+										emit(all, 1, &txgShape{Asset: as, Ins: ins, InAmt: five, Outs: outs0, Sig: sig, ExtraLen: -1, Refs: txgRefAuto})
+									}
 								}
 							}
 						}
